@@ -173,6 +173,8 @@ def prop_C02(run):
     rules_idx.sk_provider(run)
     rules_idx.sk_match_locals(run)
     rules_idx.sk_instruction_flag(run)
+    import rules_mpt as _rm
+    _rm.smallest_by_resolved_size(run)          # `smallest` is decided on the encodings just resolved
     run.rules_run += ["FIX5 every candidate re-evaluated in every pass", "SK static-known analysis conservative (a frozen item must really be constant)", "FIX1 confirming no-guess pass dominates every delivered result", "FIX2 each stateful resolver compares with the previous pass and returns Unresolved on change",
                       "FIX3 resolved=true only under the static-known conjunction", "ERR3 unstable value in a last pass is an error"]
 
